@@ -9,7 +9,13 @@ for d in $ROOT/*/out/*; do
   id=$(basename $(dirname $(dirname $d))); k=$(basename $d)
   tag=${id}_${k}
   if [ -n "$1" ] && ! echo " $* " | grep -q " $id "; then continue; fi
-  [ -f work/seeds/$tag.confirm.json ] || tools/confirm_seed.sh $d /verif/work/seeds/$tag.confirm.json
+  base=8ef576c
+  if [ -d "$ROOT/$id/.git" ] || [ -f "$ROOT/$id/.git" ]; then
+    # the scratch worktree the change was made in (for /tmp/seed2: repo HEAD minus the contract files)
+    case $ROOT in /tmp/seed2*) base=$(git -C $ROOT/$id rev-parse HEAD);; esac
+  fi
+  case $ROOT in /tmp/seed_adapted*) base=$(git -C /repo rev-parse HEAD);; esac
+  [ -f work/seeds/$tag.confirm.json ] || SEED_BASE=$base tools/confirm_seed.sh $d /verif/work/seeds/$tag.confirm.json
   props=$id
   case $id in
     C01) props="C01 C10 C08";; C08) props="C08 C10 C15 C02";; C09) props="C09 C01 C10";; C10) props="C10 C01 C08";;
